@@ -68,9 +68,10 @@ type State struct {
 	sigs    map[string]*Term // known-finding signatures registered by the harness on this path
 	obs     []obsEntry       // observed values (translator validation)
 	tasks   []*task          // fork-join idiom: goroutines spawned and not yet run
-	chans   map[int]*chanObj
+	handlers map[int]Value   // channel object id -> harness handler (verifChanHandler)
 	wgs     map[string]int // sync.WaitGroup counters
 	inTask  int            // > 0 while a spawned task is running
+	goCount int // number of `go` statements executed since verifGoReset; -1 = counting is off (go is unsupported)
 }
 
 type obsEntry struct {
@@ -79,7 +80,7 @@ type obsEntry struct {
 }
 
 func (s *State) clone() *State {
-	n := &State{eng: s.eng, dead: s.dead, why: s.why, lastRet: s.lastRet, curKey: s.curKey, subAlloc: s.subAlloc}
+	n := &State{eng: s.eng, dead: s.dead, why: s.why, lastRet: s.lastRet, curKey: s.curKey, subAlloc: s.subAlloc, goCount: s.goCount}
 	n.allocLog = append([]int(nil), s.allocLog...)
 	n.heap = make(map[int]Value, len(s.heap))
 	for k, v := range s.heap {
@@ -101,12 +102,7 @@ func (s *State) clone() *State {
 	n.tasks = append([]*task(nil), s.tasks...)
 	n.wgs = s.wgs
 	n.inTask = s.inTask
-	if s.chans != nil {
-		n.chans = make(map[int]*chanObj, len(s.chans))
-		for k, v := range s.chans {
-			n.chans[k] = v
-		}
-	}
+	n.handlers = s.handlers
 	return n
 }
 
@@ -207,6 +203,7 @@ type Engine struct {
 	axioms      map[string]bool
 	globalByID  map[int]*ssa.Global
 	initSets    map[*ssa.Global]bool
+	modelledGlobals map[int]bool // foreign globals with a modelled initial value (intr_errors.go)
 }
 
 // extraIntrinsics lets per-property files (intr_*.go) register intrinsics from an init function.
@@ -258,7 +255,7 @@ func sanitize(s string) string {
 // ---------- running ----------
 
 func (e *Engine) RunHarness(fn *ssa.Function) {
-	st := &State{eng: e, heap: map[int]Value{}}
+	st := &State{eng: e, heap: map[int]Value{}, goCount: -1}
 	// run the package initialisers of pint packages first (package-level vars)
 	if initFn := fn.Pkg.Func("init"); initFn != nil {
 		e.InitMode = true
@@ -537,6 +534,17 @@ func (e *Engine) globalObj(st *State, g *ssa.Global) int {
 		e.gheap = map[int]Value{}
 	}
 	e.gheap[id] = zeroValue(g.Type().(*types.Pointer).Elem())
+	// selected variables of foreign packages (error sentinels) get a modelled initial value instead of a silent zero
+	for _, f := range foreignGlobalInit {
+		if v, ok := f(e, g); ok {
+			e.gheap[id] = v
+			if e.modelledGlobals == nil {
+				e.modelledGlobals = map[int]bool{}
+			}
+			e.modelledGlobals[id] = true
+			break
+		}
+	}
 	return id
 }
 
@@ -551,7 +559,7 @@ func (e *Engine) load(st *State, p PtrVal) Value {
 			obj = g
 			// a global nobody wrote yet: its zero value is only right if its package's initialiser (which was
 			// skipped for foreign, non-executed packages) would not have set it (e.g. io.EOF, unicode tables)
-			if gl := e.globalByID[p.Obj]; gl != nil && !e.InitMode && e.skippedInitSets(gl) {
+			if gl := e.globalByID[p.Obj]; gl != nil && !e.InitMode && !e.modelledGlobals[p.Obj] && e.skippedInitSets(gl) {
 				unsupported("read of %s, which its package initialiser sets but the engine does not run (add an intrinsic)", gl)
 			}
 		} else {
@@ -858,18 +866,21 @@ func (e *Engine) step(st *State) (forks []*State) {
 		}
 		fv := e.val(fr, in.Call.Value)
 		return e.doCall(st, fr, in, &in.Call, fv, args, true)
-	case *ssa.Go:
-		e.goStmt(st, fr, in)
+	case *ssa.MakeChan:
+		fr.regs[in] = e.makeChan(st, e.val(fr, in.Size))
 	case *ssa.Send:
 		return e.sendStmt(st, fr, in)
-	case *ssa.MakeChan:
-		n, ok := e.concreteInt(st, e.val(fr, in.Size), "chan size")
-		if !ok {
-			unsupported("make(chan) with symbolic size")
+	case *ssa.Go:
+		if st.goCount >= 0 {
+			// counted, not run — after the harness opted in with verifGoReset (the spawned function must be one that
+			// cannot make progress before the harness looks, e.g. a worker blocked on an empty queue)
+			st.goCount++
+		} else {
+			// fork-join idiom (conc.go): the spawned function becomes a task that runs when the spawner blocks
+			e.goStmt(st, fr, in)
 		}
-		fr.regs[in] = e.makeChan(st, n)
 	case *ssa.Select:
-		unsupported("select statement")
+		unsupported("concurrency instruction %T", instr)
 	default:
 		unsupported("instruction %T (%s)", instr, instr)
 	}
@@ -964,10 +975,15 @@ func (e *Engine) unop(st *State, in *ssa.UnOp, x Value) Value {
 	switch in.Op {
 	case token.MUL:
 		return e.load(st, x.(PtrVal))
+	case token.ARROW:
+		return e.chanRecv(st, x, in.CommaOk, in.Type())
 	case token.NOT:
 		return Not(asTerm(x))
 	case token.SUB:
 		if f, ok := x.(FloatVal); ok {
+			if f.I != nil {
+				unsupported("arithmetic on a symbolic float")
+			}
 			return FloatVal{F: -f.F}
 		}
 		return e.arith(st, "bvneg", asTerm(x), nil)
@@ -983,7 +999,14 @@ func (e *Engine) valuesEq(a, b Value) *Term {
 	case *Term:
 		return Eq(x, asTerm(b))
 	case FloatVal:
-		return ConstBool(x.F == b.(FloatVal).F)
+		y := b.(FloatVal)
+		if x.I != nil || y.I != nil {
+			if x.I != nil && y.I != nil {
+				return Eq(x.I, y.I)
+			}
+			unsupported("comparison of a symbolic float with a concrete one")
+		}
+		return ConstBool(x.F == y.F)
 	case StringVal:
 		y := b.(StringVal)
 		if x.Atom != nil || y.Atom != nil {
@@ -1036,9 +1059,6 @@ func (e *Engine) valuesEq(a, b Value) *Term {
 		}
 	case MapVal:
 		y := b.(MapVal)
-		return ConstBool(x.Obj == y.Obj)
-	case ChanVal:
-		y := b.(ChanVal)
 		return ConstBool(x.Obj == y.Obj)
 	case FuncVal:
 		y := b.(FuncVal)
@@ -1108,15 +1128,18 @@ func (e *Engine) binop(st *State, op token.Token, a, b Value, typ types.Type) Va
 	}
 	if fa, ok := a.(FloatVal); ok {
 		fb := b.(FloatVal)
+		if fa.I != nil || fb.I != nil {
+			unsupported("arithmetic/ordering on a symbolic float")
+		}
 		switch op {
 		case token.ADD:
-			return FloatVal{fa.F + fb.F}
+			return FloatVal{F: fa.F + fb.F}
 		case token.SUB:
-			return FloatVal{fa.F - fb.F}
+			return FloatVal{F: fa.F - fb.F}
 		case token.MUL:
-			return FloatVal{fa.F * fb.F}
+			return FloatVal{F: fa.F * fb.F}
 		case token.QUO:
-			return FloatVal{fa.F / fb.F}
+			return FloatVal{F: fa.F / fb.F}
 		case token.LSS:
 			return ConstBool(fa.F < fb.F)
 		case token.LEQ:
@@ -1196,15 +1219,19 @@ func (e *Engine) convert(st *State, v Value, from, to types.Type) Value {
 			return Resize(asTerm(v), wt, sf)
 		}
 		if f, ok2 := v.(FloatVal); ok2 {
+			if f.I != nil {
+				return Resize(f.I, wt, true) // exact: the float is the image of this integer
+			}
 			return ConstBV(uint64(int64(f.F)), wt)
 		}
 	}
 	if isFloat(to) {
 		if t, ok := v.(*Term); ok {
-			if !t.IsConst() {
-				unsupported("symbolic int to float")
-			}
 			_, sf, _ := intWidth(from)
+			if !t.IsConst() {
+				// exact for |n| < 2^53; the harness states the range of the integer
+				return FloatVal{I: Resize(t, 64, sf)}
+			}
 			if sf {
 				return FloatVal{F: float64(t.Signed())}
 			}
@@ -1479,6 +1506,7 @@ func (e *Engine) lookup(st *State, fr *Frame, in *ssa.Lookup) []*State {
 	// result = ite chain over entries (latest entries win; keys are kept distinct by mapUpdate)
 	var res Value = zeroValue(elemT)
 	found := FalseT
+	mergeable := true
 	for i := len(mo.Entries) - 1; i >= 0; i-- {
 		c := e.valuesEq(mo.Entries[i].Key, key)
 		if c.IsFalse() {
@@ -1491,13 +1519,15 @@ func (e *Engine) lookup(st *State, fr *Frame, in *ssa.Lookup) []*State {
 		}
 		m, ok := mergeValue(c, mo.Entries[i].Val, res)
 		if !ok {
-			unsupported("map lookup with symbolic key over non-mergeable values")
+			mergeable = false
+			break
 		}
 		res = m
 		found = Or(c, found)
-		if c.IsTrue() {
-			break
-		}
+	}
+	if !mergeable {
+		// values that cannot be merged (pointers to different objects): fork on which entry the key equals
+		return e.lookupFork(st, fr, in, mo, key, elemT)
 	}
 	if in.CommaOk {
 		fr.regs[in] = TupleVal{Vals: []Value{res, found}}
@@ -1506,6 +1536,65 @@ func (e *Engine) lookup(st *State, fr *Frame, in *ssa.Lookup) []*State {
 	}
 	fr.ip++
 	return nil
+}
+
+// lookupFork: one successor state per feasible "key equals entry i" and one for "key equals no entry".
+func (e *Engine) lookupFork(st *State, fr *Frame, in *ssa.Lookup, mo *MapObj, key Value, elemT types.Type) []*State {
+	type alt struct {
+		val   Value
+		found bool
+		cond  *Term
+	}
+	var alts []alt
+	none := TrueT
+	for i := len(mo.Entries) - 1; i >= 0; i-- {
+		c := e.valuesEq(mo.Entries[i].Key, key)
+		if c.IsFalse() {
+			continue
+		}
+		alts = append(alts, alt{mo.Entries[i].Val, true, And(none, c)})
+		none = And(none, Not(c))
+		if c.IsTrue() {
+			break
+		}
+	}
+	alts = append(alts, alt{zeroValue(elemT), false, none})
+	var live []alt
+	for _, a := range alts {
+		if a.cond.IsFalse() {
+			continue
+		}
+		if !a.cond.IsTrue() {
+			r := e.S.Check(st.pc, a.cond)
+			e.S.EndModel()
+			if r == Unsat {
+				continue
+			}
+		}
+		live = append(live, a)
+	}
+	if len(live) == 0 {
+		st.dead = true
+		return nil
+	}
+	var forks []*State
+	for k, a := range live {
+		tgt := st
+		if k < len(live)-1 {
+			tgt = st.clone()
+			forks = append(forks, tgt)
+		}
+		if !a.cond.IsTrue() {
+			tgt.pc = append(tgt.pc, a.cond)
+		}
+		if in.CommaOk {
+			tgt.top().regs[in] = TupleVal{Vals: []Value{a.val, ConstBool(a.found)}}
+		} else {
+			tgt.top().regs[in] = a.val
+		}
+		tgt.top().ip++
+	}
+	return forks
 }
 
 func (e *Engine) mapUpdate(st *State, fr *Frame, in *ssa.MapUpdate) []*State {
@@ -1646,6 +1735,9 @@ func (e *Engine) rangeOp(st *State, fr *Frame, in *ssa.Range) Value {
 }
 
 func (e *Engine) modelNow() (map[string]uint64, []UFApp) {
+	if os.Getenv("VERIF_NOMODEL") != "" {
+		return map[string]uint64{}, nil
+	}
 	m := e.S.Values(e.nondet)
 	if len(e.ufApps) == 0 {
 		return m, nil
